@@ -1,15 +1,18 @@
 package main
 
 import (
+	"context"
 	"encoding/json"
 	"errors"
 	"fmt"
 	"go/types"
+	"iter"
 	"math"
 	"path/filepath"
 	"sort"
 	"strconv"
 	"strings"
+	"sync"
 	"syscall"
 
 	"github.com/octohelm/gengo/pkg/gengo"
@@ -25,6 +28,8 @@ type instState struct {
 	serial int
 	seen   int
 	helper bool
+	// scratch: what a "lazy" part's closure reads (overwritten after every Render)
+	scratch string
 }
 
 var errScripted = errors.New("scripted generator failure")
@@ -94,8 +99,18 @@ func (g *core) render(c gengo.Context, parts []proto.Part) {
 			c.Render(snippet.Block(docComment(c, p.DocRef)))
 		case p.Results:
 			c.Render(snippet.Block(resultsComment(c)))
+		case p.Ref != "" && p.Via == "expose-shared":
+			c.Render(sharedExpose(p.Ref))
 		case p.Ref != "":
 			c.Render(snippet.ID(p.Ref))
+		case p.Via == "lazy":
+			// Render consumes the snippet while it is called: what the generator does to its scratch state
+			// afterwards is none of the file's business
+			st.scratch = p.Text
+			c.Render(snippet.Func(func(ctx context.Context) iter.Seq[string] {
+				return func(yield func(string) bool) { yield(st.scratch) }
+			}))
+			st.scratch = "\n// scratch state overwritten after Render returned\n"
 		case p.Value != "":
 			switch p.Value {
 			case "float-keys":
@@ -119,6 +134,24 @@ func (g *core) render(c gengo.Context, parts []proto.Part) {
 
 // docComment reads the documentation of a type of any loaded package through the public API, the
 // way a generator that documents field types would.
+// sharedExposes: snippet values a generator author keeps in package-level variables.
+var (
+	sharedExposesMu sync.Mutex
+	sharedExposes   = map[string]snippet.Snippet{}
+)
+
+func sharedExpose(ref string) snippet.Snippet {
+	sharedExposesMu.Lock()
+	defer sharedExposesMu.Unlock()
+	if s, ok := sharedExposes[ref]; ok {
+		return s
+	}
+	i := strings.LastIndex(ref, ".")
+	s := snippet.PkgExpose(ref[:i], ref[i+1:])
+	sharedExposes[ref] = s
+	return s
+}
+
 // resultsComment asks the universe for the possible results of every function of the processed package.
 func resultsComment(c gengo.Context) string {
 	pkg := c.Package("")
